@@ -5,24 +5,6 @@ well-formed type whose lengths, limits and field counts are at most `2^62`.
 import ZtypV.Proofs.ViewSer
 namespace ZtypV
 
-/-- induction principle for the nested inductive `Ty` -/
-theorem Ty.induct {P : Ty → Prop}
-    (uint : ∀ b, P (.uint b)) (bool : P .bool) (bytesN : ∀ n, P (.bytesN n))
-    (bitvector : ∀ n, P (.bitvector n)) (bitlist : ∀ n, P (.bitlist n))
-    (vector : ∀ e n, P e → P (.vector e n)) (list : ∀ e n, P e → P (.list e n))
-    (container : ∀ fs, (∀ t ∈ fs, P t) → P (.container fs))
-    (union : ∀ hn opts, (∀ t ∈ opts, P t) → P (.union hn opts)) : ∀ t, P t := by
-  intro t
-  exact Ty.rec (motive_1 := P) (motive_2 := fun ts => ∀ t ∈ ts, P t)
-    uint bool bytesN bitvector bitlist vector list container union
-    (by intro t ht; cases ht)
-    (by
-      intro head tail ih1 ih2 t ht
-      rcases List.mem_cons.mp ht with rfl | ht
-      · exact ih1
-      · exact ih2 t ht)
-    t
-
 namespace View
 
 mutual
